@@ -117,7 +117,8 @@ def small_ops():
     a, b = ATTRS[0], ATTRS[1]
     return [dict(kind='ipv4', nlri=[p1], attr=a), dict(kind='ipv4', nlri=[p1], attr=b), dict(kind='ipv4', nlri=[p2], attr=a),
             dict(kind='ipv4', withdraw=[p1]), dict(kind='ipv4', withdraw=[p2]), dict(kind='ipv4', nlri=[p1, p2], attr=a),
-            dict(kind='ipv4', nlri=[p2], attr=b, withdraw=[p1]), dict(kind='DROP'), dict(kind='DROP', how='peer-notification')]
+            dict(kind='ipv4', nlri=[p2], attr=b, withdraw=[p1]), dict(kind='ipv4', nlri=[p1], attr=b, withdraw=[p1]),
+            dict(kind='DROP'), dict(kind='DROP', how='peer-notification')]
 
 
 def random_op(rng):
@@ -132,9 +133,12 @@ def random_op(rng):
             op.update(nlri=nl, attr=rng.choice(ATTRS))
         elif x < 0.85:
             op.update(withdraw=nl)
-        else:
+        elif x < 0.95:
             wd = [p for p in rng.sample(PFX, 2) if p not in nl]
             op.update(nlri=nl, attr=rng.choice(ATTRS), withdraw=wd)
+        else:
+            # the same prefix withdrawn and announced by one UPDATE: RFC 4271 4.3 - it is announced
+            op.update(nlri=nl, attr=rng.choice(ATTRS), withdraw=rng.sample(nl, 1) + [p for p in rng.sample(PFX, 1) if p not in nl])
         return op
     k = 'flowspec' if r < 0.8 else 'mpls_vpn'
     pool = FS if k == 'flowspec' else VPN
@@ -155,21 +159,25 @@ class Runner(object):
     def __init__(self, side, V, stats):
         self.side, self.V, self.stats = side, V, stats
         self.w = World(bgp_opts={'rib': True, 'afi_safi': ['ipv4', 'flowspec']}, time_opts={'idle_hold_time': 1})
-        self.model = Model()
+        self.models = {'recv': Model(), 'send': Model()}
+        self.model = self.models[side] if side in self.models else None
+        self.fixed_side = side
         self.connect()
 
     def connect(self):
         caps = [(1, struct.pack('!HBB', 1, 0, 1)), (1, struct.pack('!HBB', 1, 0, 133)), (1, struct.pack('!HBB', 1, 0, 128)), (2, b''), (65, struct.pack('!I', 65002))]
         self.tr = self.w.establish(caps=caps)
         assert self.w.state_direct() == 'ESTABLISHED', self.w.state_direct()
-        self.ver = self.versions()
+        self.vers = {d: self.versions(d) for d in ('recv', 'send')}
+        self.ver = self.vers.get(self.side)
 
-    def versions(self):
-        code, body = self.w.rest('GET', 'version/%s' % ('received' if self.side == 'recv' else 'send'))
+    def versions(self, side=None):
+        side = side or self.side
+        code, body = self.w.rest('GET', 'version/%s' % ('received' if side == 'recv' else 'send'))
         return dict(body['version']) if code == 200 and body and 'version' in body else None
 
     def bad(self, kind, feats, detail, seq):
-        self.V.setdefault((kind, tuple(sorted(feats))), dict(kind=kind, features=sorted(feats), detail=detail, replay=dict(side=self.side, ops=seq)))
+        self.V.setdefault((kind, tuple(sorted(feats))), dict(kind=kind, features=sorted(feats), detail=detail, replay=dict(side=self.fixed_side, ops=seq)))
 
     def step(self, op, seq):
         w = self.w
@@ -190,13 +198,19 @@ class Runner(object):
             if pr.adj_rib_in.get('ipv4') or pr.adj_rib_out.get('ipv4'):
                 self.bad('rib-not-empty-after-drop', ['side:' + self.side, 'how:' + how], 'after the session dropped (' + how + ') adj_rib_in has %d and adj_rib_out %d IPv4 entries' % (
                     len(pr.adj_rib_in.get('ipv4') or {}), len(pr.adj_rib_out.get('ipv4') or {})), seq)
-            self.model.reset()
+            for m_ in self.models.values():
+                m_.reset()
             self.connect()
             pr2 = w.fsm.protocol
-            if pr2.adj_rib_in.get('ipv4') or pr2.adj_rib_out.get('ipv4') or any(self.ver.values()):
-                self.bad('state-survives-drop', ['side:' + self.side], 'the new session starts with RIB %s / %s and versions %s' % (
-                    pr2.adj_rib_in.get('ipv4'), pr2.adj_rib_out.get('ipv4'), self.ver), seq)
+            if pr2.adj_rib_in.get('ipv4') or pr2.adj_rib_out.get('ipv4') or any(any(v.values()) for v in self.vers.values() if v):
+                self.bad('state-survives-drop', ['side:' + self.fixed_side], 'the new session starts with RIB %s / %s and versions %s' % (
+                    pr2.adj_rib_in.get('ipv4'), pr2.adj_rib_out.get('ipv4'), self.vers), seq)
             return
+        # direction of this operation: fixed for the runner, or chosen per operation ('both': one session used in both directions)
+        self.side = op.get('dir') or (self.fixed_side if self.fixed_side != 'both' else 'recv')
+        other = 'send' if self.side == 'recv' else 'recv'
+        self.model = self.models[self.side]
+        self.ver = self.vers[self.side]
         if self.side == 'recv':
             w.deliver(encode(op), self.tr)
         else:
@@ -252,12 +266,25 @@ class Runner(object):
                 self.bad('version-moved-without-change' if d > 0 else 'version-stood-still', feats + ['counter:' + f],
                          'after %s the %s %s version moved by %d although the model table %s' % (
                              json.dumps(gen.norm(op))[:200], self.side, f, d, 'changed' if f in changed else 'did not change'), seq)
-        self.ver = ver
+        self.vers[self.side] = ver
+        # --- the other direction is untouched by this operation: its table and its counters
+        otable = pr.adj_rib_out['ipv4'] if self.side == 'recv' else pr.adj_rib_in['ipv4']
+        owant = self.models[other].t['ipv4']
+        ogot = gen.norm({p: {str(k): v for k, v in a.items()} for p, a in otable.items()})
+        self.stats['other_direction_checks'] = self.stats.get('other_direction_checks', 0) + 1
+        if ogot != gen.norm({p: {str(k): v for k, v in gen.norm(a).items()} for p, a in owant.items()}):
+            self.bad('other-direction-disturbed', feats, 'after the %s operation %s the %s table is %s, its model %s' % (
+                self.side, json.dumps(gen.norm(op))[:160], 'Adj-RIB-Out' if self.side == 'recv' else 'Adj-RIB-In', json.dumps(ogot)[:200], json.dumps(gen.norm(owant))[:200]), seq)
+        over = self.versions(other)
+        if over is not None and self.vers[other] is not None and over != self.vers[other]:
+            self.bad('other-direction-disturbed', feats + ['versions'], 'after the %s operation %s the %s versions went from %s to %s' % (
+                self.side, json.dumps(gen.norm(op))[:160], other, self.vers[other], over), seq)
+        self.vers[other] = over
 
 
 def plan(tier, seed):
     n = 16
-    return [dict(part=i, nparts=n, seed=seed * 100 + i, nrand=8 if tier == 'quick' else 200, length=120 if tier == 'quick' else 200, tier=tier) for i in range(n)]
+    return [dict(part=i, nparts=n, seed=seed * 100 + i, nrand=9 if tier == 'quick' else 210, length=120 if tier == 'quick' else 200, tier=tier) for i in range(n)]
 
 
 def run_shard(sh):
@@ -278,11 +305,13 @@ def run_shard(sh):
             res['evaluations'] += 1
             res['distinct'].append('x|%s|%s' % (side, s))
     for i in range(sh['nrand']):
-        side = 'recv' if i % 2 == 0 else 'send'
+        side = ('recv', 'send', 'both')[i % 3]
         r = Runner(side, V, stats)
         seq = []
         for j in range(sh['length']):
             op = random_op(rng)
+            if side == 'both' and op['kind'] != 'DROP':
+                op['dir'] = rng.choice(['recv', 'send'])
             seq.append(gen.norm(op))
             r.step(op, seq[-12:])
         res['evaluations'] += 1
